@@ -7,6 +7,8 @@ CONSTANTS
   HitMode = "identity"
   Random = FALSE
   FbMode = "faithful"
+  ShareSel = "parity"
+  RbMode = "faithful"
 INIT Init
 NEXT Next
 INVARIANT Accepted
@@ -15,5 +17,7 @@ INVARIANT Transparent
 INVARIANT NotSharedArgs
 INVARIANT NotSharedTypes
 INVARIANT SoundCache
+INVARIANT RebuildTransparent
+INVARIANT FieldsSurvive
 INVARIANT Emit
 CHECK_DEADLOCK FALSE
